@@ -488,78 +488,7 @@ func runC18(r *Run) {
 	})
 
 	r.rule("R12", "the port is separated from a host by a port-aware split: the client package cuts a host at a ':' only through net.SplitHostPort or in a function that looks at the closing bracket of an IPv6 literal (E1, belief rule)", func() {
-		isColon := func(v ssa.Value) bool {
-			c := asConst(stripValue(v))
-			if c == nil {
-				return false
-			}
-			if k, ok := constInt(c); ok && k == ':' {
-				return true
-			}
-			s, ok := constString(c)
-			return ok && s == ":"
-		}
-		isColonSearch := func(x ssa.Value) bool {
-			c, ok := x.(*ssa.Call)
-			if !ok || len(c.Call.Args) != 2 {
-				return false
-			}
-			switch calleeName(&c.Call) {
-			case "bytes.IndexByte", "bytes.LastIndexByte", "strings.IndexByte", "strings.LastIndexByte", "bytes.Index", "bytes.LastIndex", "strings.Index", "strings.LastIndex":
-				return isColon(c.Call.Args[1]) || literalIs(c.Call.Args[1], ":")
-			}
-			return false
-		}
-		aware, cuts := 0, 0
-		r.P.AllFuncs(cliPkg, func(f *ssa.Function) {
-			aware += len(callsMatching(f, false, nameIs("net.SplitHostPort")))
-			looksAtBracket := false
-			for _, b := range f.Blocks {
-				for _, in := range b.Instrs {
-					if bo, ok := in.(*ssa.BinOp); ok && (bo.Op == token.EQL || bo.Op == token.NEQ) {
-						for _, o := range []ssa.Value{bo.X, bo.Y} {
-							if k, ok := constInt(asConst(stripValue(o))); ok && (k == ']' || k == '[') {
-								looksAtBracket = true
-							}
-						}
-					}
-					if c, ok := in.(*ssa.Call); ok {
-						for _, a := range c.Call.Args {
-							if k, ok := constInt(asConst(stripValue(a))); ok && k == ']' {
-								looksAtBracket = true
-							}
-							if literalIs(a, "]") {
-								looksAtBracket = true
-							}
-						}
-					}
-				}
-			}
-			for _, b := range f.Blocks {
-				for _, in := range b.Instrs {
-					sl, ok := in.(*ssa.Slice)
-					if !ok || !isByteSeq(sl.X.Type()) {
-						continue
-					}
-					for _, bound := range []ssa.Value{sl.Low, sl.High} {
-						if bound == nil || dependsOn(bound, isColonSearch) == nil {
-							continue
-						}
-						cuts++
-						if looksAtBracket {
-							aware++
-						}
-						r.check(looksAtBracket, fmt.Sprintf("%s:colon-cut#%d:bracket-aware", short(f.String()), cuts), r.pos(in), "the function that cuts at a ':' also looks at the bracket of an IPv6 literal",
-							"a host is cut at a ':' found by a plain search: for an IPv6 literal without a port the cut lands inside the address, so [2001:db8::1] and [2001:db8::2] share the jar key [2001:db8: and each receives the other's cookies")
-					}
-				}
-			}
-		})
-		r.count("plain colon cuts", cuts)
-		r.atLeast("port-aware host splits in the client package", aware, 2)
-		if cuts == 0 {
-			r.ok("client:no-plain-colon-cut", "", fmt.Sprintf("no host is cut at a ':' located by a plain search; %d port-aware splits", aware))
-		}
+		hostColonCutRule(r, cliPkg, 2, "so [2001:db8::1] and [2001:db8::2] share the jar key [2001:db8: and each receives the other's cookies")
 	})
 
 	r.rule("R13", "the request URL is cut into path, query and fragment at the first `?` / `#` only: a cut that splits at every separator and keeps two pieces drops what follows a second one (E3)", func() {
@@ -1069,4 +998,81 @@ func selectsRequestFirst(f *ssa.Function, setter, cfield, rfield string) bool {
 	}
 	walk(arg, nil, nil)
 	return sawReq && okClient
+}
+
+// hostColonCutRule: in pkg a host is cut at a ':' only through net.SplitHostPort or in a function that looks at the
+// bracket of an IPv6 literal.
+func hostColonCutRule(r *Run, pkg string, minAware int, consequence string) {
+	isColon := func(v ssa.Value) bool {
+		c := asConst(stripValue(v))
+		if c == nil {
+			return false
+		}
+		if k, ok := constInt(c); ok && k == ':' {
+			return true
+		}
+		s, ok := constString(c)
+		return ok && s == ":"
+	}
+	isColonSearch := func(x ssa.Value) bool {
+		c, ok := x.(*ssa.Call)
+		if !ok || len(c.Call.Args) != 2 {
+			return false
+		}
+		switch calleeName(&c.Call) {
+		case "bytes.IndexByte", "bytes.LastIndexByte", "strings.IndexByte", "strings.LastIndexByte", "bytes.Index", "bytes.LastIndex", "strings.Index", "strings.LastIndex":
+			return isColon(c.Call.Args[1]) || literalIs(c.Call.Args[1], ":")
+		}
+		return false
+	}
+	aware, cuts := 0, 0
+	r.P.AllFuncs(pkg, func(f *ssa.Function) {
+		aware += len(callsMatching(f, false, nameIs("net.SplitHostPort")))
+		looksAtBracket := false
+		for _, b := range f.Blocks {
+			for _, in := range b.Instrs {
+				if bo, ok := in.(*ssa.BinOp); ok && (bo.Op == token.EQL || bo.Op == token.NEQ) {
+					for _, o := range []ssa.Value{bo.X, bo.Y} {
+						if k, ok := constInt(asConst(stripValue(o))); ok && (k == ']' || k == '[') {
+							looksAtBracket = true
+						}
+					}
+				}
+				if c, ok := in.(*ssa.Call); ok {
+					for _, a := range c.Call.Args {
+						if k, ok := constInt(asConst(stripValue(a))); ok && k == ']' {
+							looksAtBracket = true
+						}
+						if literalIs(a, "]") {
+							looksAtBracket = true
+						}
+					}
+				}
+			}
+		}
+		for _, b := range f.Blocks {
+			for _, in := range b.Instrs {
+				sl, ok := in.(*ssa.Slice)
+				if !ok || !isByteSeq(sl.X.Type()) {
+					continue
+				}
+				for _, bound := range []ssa.Value{sl.Low, sl.High} {
+					if bound == nil || dependsOn(bound, isColonSearch) == nil {
+						continue
+					}
+					cuts++
+					if looksAtBracket {
+						aware++
+					}
+					r.check(looksAtBracket, fmt.Sprintf("%s:colon-cut#%d:bracket-aware", short(f.String()), cuts), r.pos(in), "the function that cuts at a ':' also looks at the bracket of an IPv6 literal",
+						"a host is cut at a ':' found by a plain search: for an IPv6 literal without a port the cut lands inside the address, "+consequence)
+				}
+			}
+		}
+	})
+	r.count("plain colon cuts", cuts)
+	r.atLeast("port-aware host splits in the package", aware, minAware)
+	if cuts == 0 {
+		r.ok("no-plain-colon-cut", "", fmt.Sprintf("no host is cut at a ':' located by a plain search; %d port-aware splits", aware))
+	}
 }
